@@ -29,6 +29,12 @@ func init() {
 	}
 	executors["rp-proven"] = func(o Op) string {
 		p := mkRangeProof(o.int("ncs"), int(unhx(o["sign"]).Int64()), unhx(o["a"]).Uint64(), unhx(o["k"]))
+		if o["extractkey"] != nil {
+			// only descriptors ExtractStructure lets through can belong to a verified proof
+			if _, err := p.ExtractStructure(1, execKey(o.str("extractkey")).pk); err != nil {
+				return "turned-away"
+			}
+		}
 		typ, f, b := p.ProvenStatement()
 		s, _ := typ.Sign()
 		if p.Sign != 1 && p.Sign != -1 {
@@ -82,6 +88,58 @@ func init() {
 	}
 }
 
+func init() {
+	// several statements in one proof, on different hidden attributes (and more than one on some);
+	// repeated, since a prover may order its work differently from run to run
+	executors["rp-complete-multi"] = func(o Op) string {
+		kp := execKey(o.str("key"))
+		nattr := o.int("nattr")
+		attrs := make([]*big.Int, nattr)
+		for i := range attrs {
+			attrs[i] = bi(int64(5 + i))
+		}
+		type stmt struct {
+			idx int
+			st  *rangeproof.Statement
+		}
+		var stmts []stmt
+		for _, e := range o["stmts"].([]any) {
+			f := e.([]any)
+			idx := int(unhx(f[0]).Int64())
+			attrs[idx-1] = unhx(f[1])
+			st := &rangeproof.Statement{Sign: int(unhx(f[2]).Int64()), Factor: uint(unhx(f[3]).Uint64()), Bound: unhx(f[4])}
+			if n := unhx(f[5]).Int64(); n > 0 {
+				st.Splitter = squaresTable(n - 1)
+			}
+			stmts = append(stmts, stmt{idx, st})
+		}
+		cred := issueCred(kp, unhx(o["secret"]), attrs)
+		for rep := 0; rep < o.int("reps"); rep++ {
+			m := map[int][]*rangeproof.Statement{}
+			for _, s := range stmts {
+				m[s.idx] = append(m[s.idx], s.st)
+			}
+			ctx, nonce := bi(int64(7+rep)), bi(9)
+			proof, err := cred.CreateDisclosureProof(intsOf(o["disclosed"]), m, false, ctx, nonce)
+			if err != nil {
+				return fmt.Sprintf("err at repetition %d", rep)
+			}
+			v := executors["verifyD"](Op{"proof": any(map[string]any(proofDTree(proof))), "key": o["key"], "context": hx(ctx), "nonce": hx(nonce), "issig": false})
+			if v != "accept" {
+				return fmt.Sprintf("built-but-%s at repetition %d", v, rep)
+			}
+			for idx, sts := range m {
+				for i, st := range sts {
+					if !proof.RangeProofs[idx][i].Proves(st) {
+						return "built-but-not-reported"
+					}
+				}
+			}
+		}
+		return "ok"
+	}
+}
+
 var tables = map[int64]*rangeproof.SquaresTable{}
 
 func squaresTable(limit int64) *rangeproof.SquaresTable {
@@ -115,6 +173,16 @@ func genC12(g *Rng, tier string, emit func(Op)) {
 	// (1) the implication logic: for a verified proof with descriptor (sign, A, K, #squares) the
 	// established fact is sign*(A*m - K) >= 0. Whatever ProvesStatement / ProvenStatement report must
 	// follow from it for every attribute value in the box.
+	// three squares: every factor the descriptor can carry is either turned away by the verifier or
+	// reported soundly
+	for _, sign := range []int64{1, -1} {
+		for a := int64(0); a <= 9; a++ {
+			for k := -krange; k <= krange; k++ {
+				emit(Op{"op": "rp-proven", "class": "proven-if-extractable", "label": "sound|turned-away", "fkey": "C12/three-square-factor-extractable",
+					"extractkey": kp.id, "ncs": 3, "sign": hxi(sign), "a": hxi(a), "k": hxi(k)})
+			}
+		}
+	}
 	for _, ncs := range []int{4, 3} {
 		as := []int64{0, 1, 2, 3, 4, 7, 8}
 		if ncs == 3 {
@@ -514,6 +582,28 @@ func genC13(g *Rng, tier string, emit func(Op)) {
 					}
 				}
 			}
+		}
+		// statements on several hidden attributes in one proof
+		for _, idxs := range [][]int{{1, 2}, {2, 1}, {1, 2, 4}, {4, 2, 2, 1}, {3, 1, 3}, {1, 2, 3, 4}} {
+			if 5 > len(kp.pk.R) {
+				continue
+			}
+			var stmts []any
+			vals := map[int]*big.Int{}
+			for j, idx := range idxs {
+				if vals[idx] == nil {
+					vals[idx] = g.bits(50)
+				}
+				sign := int64(1 - 2*(j%2))
+				table := int64(0)
+				if j == len(idxs)-1 {
+					table = tableLimit + 1
+				}
+				bound := new(big.Int).Sub(vals[idx], bi(int64(3+j)*sign))
+				stmts = append(stmts, []any{hxi(int64(idx)), hx(vals[idx]), hxi(sign), hxi(1), hx(bound), hxi(table)})
+			}
+			emit(Op{"op": "rp-complete-multi", "class": "several-attributes", "label": "ok", "nomodel": true, "fkey": "C13/several-attributes",
+				"key": kp.id, "secret": hx(secret), "nattr": 4, "stmts": stmts, "disclosed": intsAny(nil), "reps": 10})
 		}
 		// differences at the upper end of what four squares of l_d bits can express (just below
 		// 2^Lm): the roots then use all their bits
